@@ -46,6 +46,59 @@ def is_prefix_recipe(t, name_call, of):
     return ok, ps
 
 
+def tokspec_leaves(t):
+    import tokspec
+    return tokspec.leaves(t)
+
+
+def library_ctors(t, memo=None):
+    """FnUpdate::mk_param(id, args) is the node Param(id, args) (library assumption L9, as for mk_not / mk_binary)."""
+    if memo is None:
+        memo = {}
+    if not isinstance(t, tuple) or not t:
+        return t
+    hit = memo.get(id(t))
+    if hit is not None and hit[0] is t:
+        return hit[1]
+    r = tuple(library_ctors(x, memo) if isinstance(x, tuple) else x for x in t)
+    if r[0] == "call" and isinstance(r[1], str) and last(r[1]) == "mk_param" and "FnUpdate" in r[1] and len(r[2]) == 2:
+        a = pm.strip(r[2][1])
+        r = ("ctor", "biodivine_lib_param_bn::FnUpdate::Param", (r[2][0], ("call", "std::vec::Vec::<T>::new", ()) if a in (("array", ()), ("vec", ())) else r[2][1]))
+    elif all(a is b for a, b in zip(r, t)):
+        r = t
+    memo[id(t)] = (t, r)
+    return r
+
+
+def shared_buffer(t, buf, fpath, memo=None):
+    """The value of a `&mut String` buffer with the induction hypothesis applied (a recursive call hands the buffer back unchanged) and
+    push / pop pairs cancelled."""
+    if memo is None:
+        memo = {}
+    if not isinstance(t, tuple) or not t:
+        return t
+    hit = memo.get(id(t))
+    if hit is not None and hit[0] is t:
+        return hit[1]
+    r = tuple(shared_buffer(x, buf, fpath, memo) if isinstance(x, tuple) else x for x in t)
+
+    def root(x):
+        while isinstance(x, tuple) and x and x[0] == "mut":
+            x = x[1]
+        return x
+    if r[0] == "mut" and root(r) == buf:
+        eff = r[2]
+        if eff[0] in ("call", "rec") and isinstance(eff[1], str) and eff[1] == fpath:
+            r = r[1]
+        elif eff[0] == "call" and isinstance(eff[1], str) and last(eff[1]) == "pop" and not eff[2] and r[1][0] == "mut" \
+                and r[1][2][0] == "call" and last(r[1][2][1]) == "push" and len(r[1][2][2]) == 1:
+            r = r[1][1]
+    if r is not t and all(a is b for a, b in zip(r, t)) and len(r) == len(t):
+        r = t
+    memo[id(t)] = (t, r)
+    return r
+
+
 def run(prog, rep):
     rep.explanation = __doc__
     rep.assumptions = ["FnUpdate::implies / and / negation build the corresponding Boolean connective", "BooleanNetwork::to_bnet accepts exactly flattened update functions"]
@@ -83,9 +136,12 @@ def run(prog, rep):
         unbox = lambda t: pm.strip(t)          # noqa: E731
         c_ok = pm.match(("ctor", P(lambda x: True), (P(lambda t: t == a),)), got["Const"]) is not None and last(got["Const"][1]) == "Const"
         v_ok = pm.match(("ctor", P(lambda x: True), (P(lambda t: t == a),)), got["Var"]) is not None and last(got["Var"][1]) == "Var"
-        n_ok = pm.match(C("negation", is_flatten(a)), got["Not"]) is not None or \
+        n_ok = pm.match(C("negation", is_flatten(a)), got["Not"]) is not None or pm.match(C("mk_not", is_flatten(a)), got["Not"]) is not None or \
             (got["Not"][0] == "ctor" and last(got["Not"][1]) == "Not" and pm.match(is_flatten(a), got["Not"][2][0]) is not None)
         bt = got["Binary"]
+        # the node literal, or the library constructor FnUpdate::mk_binary(op, left, right)
+        if bt[0] == "call" and isinstance(bt[1], str) and last(bt[1]) == "mk_binary" and "FnUpdate" in bt[1] and len(bt[2]) == 3:
+            bt = ("ctor", FN + "Binary", bt[2])
         b_ok = bt[0] == "ctor" and last(bt[1]) == "Binary" and len(bt[2]) == 3 and pm.strip(bt[2][0]) == op and pm.match(is_flatten(a), bt[2][1]) is not None \
             and pm.match(is_flatten(b), bt[2][2]) is not None
         rep.check(c_ok and v_ok and n_ok and b_ok, "C19-R1", "flatten_fn_update/rebuild", where, "Const / Var copied; Not / Binary rebuilt from flattened children (same operator, same order)",
@@ -103,6 +159,16 @@ def run(prog, rep):
     net, regs, prefix = (("param", x) for x in pn)
     ret = s.ret
     where = f"{ex.file}:{ex.line}"
+    if str(ex.param_tys[2]).startswith("&mut"):
+        # the name is a buffer shared with the callers: by induction over the argument list a recursive call leaves it as it found it
+        # (checked right here: on return the buffer is the one that was passed in), so what a later call sees is what this level pushed
+        out = shared_buffer(getattr(s, "mut_out", {}).get(pn[2], prefix), prefix, ex.path)
+        restored = all(leaf == prefix for _, leaf in tokspec_leaves(out))
+        rep.check(restored, "C19-R3", "explode_function/buffer-restored", where,
+                  "the shared name buffer is handed back as it was received (every push is popped)",
+                  f"the shared name buffer is left as {sem.short(out, 160)}: the names of the sibling branches are built on top of what this call left behind")
+        ret = shared_buffer(ret, prefix, ex.path) if restored else ret
+    ret = nz(library_ctors(ret))
     EMPTY = ("call", norm.EMPTY, (regs,))
     if not (ret[0] == "ite" and ret[1] == EMPTY):
         rep.unresolved("C19-R2", "explode_function/shape", where, f"result is not a case split on `regulators is empty`: {sem.short(ret, 160)}")
@@ -175,7 +241,7 @@ def run(prog, rep):
         skip_ok = len(conds) == 1 and conds[0][1] is False and pm.match(("call", norm.EMPTY, (REGS,)), conds[0][0]) is not None
         rep.check(skip_ok, "C19-R4", "flatten_update_function/skip", where, "converted iff the variable has at least one regulator",
                   f"the function is installed under {[(sem.short(t, 60), p_) for t, p_ in conds]}: it must be installed exactly when `network.regulators(variable)` is not empty")
-        val = sets[0].args[2]
+        val = nz(sets[0].args[2])
         inner = val[2][0] if val[0] == "ctor" and last(val[1]) == "Some" else None
         UPD = C("get_update_function", ANY, P(lambda t: t == var))
         m = pm.match(("ite", ("matches", UPD, norm.SOME_DESC), C("flatten_fn_update", ANY, SOME(UPD)), C("explode_function", ANY, V("regs"), V("prefix"))), inner) if inner else None
@@ -194,7 +260,8 @@ def run(prog, rep):
     # ---- main: every variable
     s = eng.summary(mn)
     calls = [x for x in s.all_sites() if x.kind == "call" and x.is_call_to("flatten_update_function")]
-    good = len(calls) == 1 and calls[0].args[1][0] == "elem" and pm.match(C("variables", ANY), calls[0].args[1][1]) is not None \
+    varg = nz(calls[0].args[1]) if len(calls) == 1 else None         # the variables may be collected into a list first
+    good = len(calls) == 1 and varg[0] == "elem" and pm.match(C("variables", ANY), norm.strip_adapters(varg[1])) is not None \
         and not [1 for t, pol in q.conds(calls[0].pc) if q.is_ok_test(t) is None]
     rep.check(good, "C19-R4", "main/all-variables", f"{mn.file}:{mn.line}", "flatten_update_function for every variable of the model",
               "not every variable of the model is converted")
